@@ -144,6 +144,51 @@ Definition doc_loadable (s : jext) : bool :=
              N.eqb (fst x) (so_name (snd x)) &&
              match so_signature (snd x) with Some _ => true | None => so_binary (snd x) end) (se_ops s).
 
+(* what the document of a history-built extension must say, read off the commands without the model:
+   per kind, the keys are the definition names in order of first addition and each entry shows the
+   definition LAST added under that name; operations additionally list the extension among their
+   requirements; every entry carries the extension's name *)
+Definition last_of {A} (nm : A -> name) (k : name) (l : list A) : option A :=
+  fold_left (fun acc x => if N.eqb (nm x) k then Some x else acc) l None.
+Definition first_keys (l : list name) : list name :=
+  rev (fold_left (fun acc k => if mem N.eqb k acc then acc else k :: acc) l []).
+Definition tcmds (cs : list jcmd) := flat_map (fun c : jcmd => match c with AddType t => [t] | _ => [] end) cs.
+Definition ocmds (cs : list jcmd) := flat_map (fun c : jcmd => match c with AddOp d => [d] | _ => [] end) cs.
+Definition vcmds (cs : list jcmd) := flat_map (fun c : jcmd => match c with AddValue v => [v] | _ => [] end) cs.
+Definition hist_doc_ok (n : name) (cs : list jcmd) (s : jext) : bool :=
+  list_eqb N.eqb (map fst (se_types s)) (first_keys (map atd_name (tcmds cs))) &&
+  forallb (fun kt : name * stypedef =>
+    match last_of atd_name (fst kt) (tcmds cs) with
+    | Some t => N.eqb (std_name (snd kt)) (fst kt) && N.eqb (std_descr (snd kt)) (atd_descr t) &&
+                list_eqb sparam_eqb (std_params (snd kt)) (map param_ser (atd_params t)) &&
+                sbound_eqb (std_bound (snd kt)) (bound_ser (atd_bound t)) && N.eqb (std_extension (snd kt)) n
+    | None => false
+    end) (se_types s) &&
+  list_eqb N.eqb (map fst (se_values s)) (first_keys (map (@av_name json) (vcmds cs))) &&
+  forallb (fun kv : name * svalue json =>
+    match last_of (@av_name json) (fst kv) (vcmds cs) with
+    | Some v => N.eqb (sv_name (snd kv)) (fst kv) && json_eqb (sv_typed_value (snd kv)) (av_val v) &&
+                N.eqb (sv_extension (snd kv)) n
+    | None => false
+    end) (se_values s) &&
+  list_eqb N.eqb (map fst (se_ops s)) (first_keys (map (@aod_name json json) (ocmds cs))) &&
+  forallb (fun ko : name * sopdef json json =>
+    match last_of (@aod_name json json) (fst ko) (ocmds cs) with
+    | Some d => N.eqb (so_name (snd ko)) (fst ko) && N.eqb (so_descr (snd ko)) (aod_descr d) &&
+                option_eqb (misc_eqb json_eqb) (so_misc (snd ko)) (Some (aod_misc d)) &&
+                Bool.eqb (so_binary (snd ko)) (sig_binary (aod_sig d)) && N.eqb (so_extension (snd ko)) n &&
+                match so_signature (snd ko), sig_poly (aod_sig d) with
+                | None, None => true
+                | Some q, Some p =>
+                    list_eqb sparam_eqb (sp_params q) (map param_ser (pf_params p)) &&
+                    list_eqb json_eqb (sf_input (sp_body q)) (pf_input p) &&
+                    list_eqb json_eqb (sf_output (sp_body q)) (pf_output p) &&
+                    seteq_b N.eqb (sf_reqs (sp_body q)) (n :: pf_reqs p) && nodupb N.eqb (sf_reqs (sp_body q))
+                | _, _ => false
+                end
+    | None => false
+    end) (se_ops s).
+
 Definition mon (c : case) : bool :=
   match c with
   | CHist n v reqs cmds before after own1 own2 api2 =>
@@ -154,7 +199,8 @@ Definition mon (c : case) : bool :=
       | None => false
       end &&
       match before with OOk s => N.eqb (se_name s) n && version_eqb (se_version s) v &&
-                                 seteq_b N.eqb (se_reqs s) reqs
+                                 seteq_b N.eqb (se_reqs s) reqs && nodupb N.eqb (se_reqs s) &&
+                                 hist_doc_ok n cmds s
                    | _ => false end
   | CShared hdrs objs prog obs =>
       Nat.eqb (length obs) (length hdrs) &&
